@@ -4,7 +4,7 @@ def _c12_project(op, line):
     return " ".join(w[:4])
 
 PROPS["C12"] = {
-        "families": {"frame": {"quick": 2000, "thorough": 40000}},
+        "families": {"frame": {"quick": 2000, "thorough": 15000}},
         "project": _c12_project,
         # c12_*: chunk independence / whole-stream spec / exactness;  c09_framer_*: the framer part of C09 (panic, hang)
         "mon_clauses": ["c12_", "c09_framer_"],
@@ -19,7 +19,7 @@ PROPS["C12"] = {
         "rule": "seeded generation: 50% well-formed messages (correct BodyLength/CheckSum, arbitrary bodies incl. embedded markers) interleaved with junk without '8='; "
                 "35% grammar-mutated (bad/huge/negative/empty/overflowing lengths, missing 9=/10=/SOH, headless, truncated); 15% marker soup/random bytes; "
                 "each stream read whole, one byte at a time, random chunks, cut at every position inside 8=/SOH9=/digits/SOH10=, at one marker position, "
-                "buffer-sized chunks (4095..8192) for long streams, with io.EOF delivered with or after the last bytes, and through readLoop; "
+                "buffer-sized chunks (2048..8192) for long streams, every single cut position of some short streams, with io.EOF delivered with or after the last bytes, and through readLoop; "
                 "bodies up to 17k (quick) / 40k (thorough) so the buffer shifts and grows; distinct = (stream kind, frames, end, partition kind, size bucket)",
         "assumptions": ["the reader honours io.Reader: at most len(p) bytes per call, and its data are finite (a stream that never ends is not a terminating case)",
                         "bytes.Index and copy are the Go library's (modelled as first occurrence / memmove)"],
